@@ -106,6 +106,16 @@ def unwhitenedTrainVar [LinearOrder α] (Kzx : DMat M n α) (Kxx : DMat n n α) 
   let W := R.transpose.mul A
   fun i => (W.transpose.mul W).toMatrix i i + max 0 (Kxx.toMatrix i i - (Kzx.transpose.mul A).toMatrix i i)
 
+/-! ### vector-valued helpers of the generated training-mode branch (wave 3; used by `Gen.VariationalAlgebra`) -/
+
+/-- `A.inv_quad_logdet(X, logdet=False, reduce_inv_quad=False)[0]`: the per-column quadratic forms `diag(Xᵀ A⁻¹ X)`
+(`Ki = A⁻¹`). -/
+def invQuadDiag (Ki : DMat M M α) (X : DMat M n α) : Fin n → α :=
+  fun i => (X.transpose.mul (Ki.mul X)).toMatrix i i
+
+/-- `v.clamp(0, math.inf)` -/
+def clamp0 [LinearOrder α] (v : Fin n → α) : Fin n → α := fun i => max 0 (v i)
+
 /-! ### KL(q(u) ‖ p(u)) — rational part and determinants
 
 `KL(N(m,S) ‖ N(μ,P)) = ½ [ tr(P⁻¹S) + (m−μ)ᵀP⁻¹(m−μ) − M − log(det S / det P) ]`.
